@@ -51,7 +51,10 @@ func setup4(args ...string) (handler.Handler4, error) {
 }
 
 func Handler4(req, resp *dhcpv4.DHCPv4) (*dhcpv4.DHCPv4, bool) {
-	v6pref := req.IsOptionRequested(dhcpv4.OptionIPv6OnlyPreferred)
+	// IsOptionRequested is also true when the client sent no parameter request list at
+	// all; only clients that explicitly list the option understand it (RFC 8925 3.1)
+	v6pref := req.Options.Has(dhcpv4.OptionParameterRequestList) &&
+		req.IsOptionRequested(dhcpv4.OptionIPv6OnlyPreferred)
 	log.WithFields(logrus.Fields{
 		"mac":      req.ClientHWAddr.String(),
 		"ipv6only": v6pref,
